@@ -57,6 +57,10 @@ def instances(tier):
     # history of ANOTHER system: a system built without constants gets an entry written into its (own) constants dict; systems built
     # afterwards, again without constants, start with no constants and their rhs is called without that parameter
     out.append(dict(id="other-system-constants-written-euler", ops=["XCONST"], family="euler", N=2, budget=b))
+    # implicit scheme WITHOUT a user Jacobian (the real finite-difference JacobianWrapper behind DiffRHS.jac, the stage solver a function
+    # of the residual and Jacobian it is handed): the equation's parameters are replaced before the reset
+    for sq in ((("I", "CONST"),) if quick else (("I", "CONST"), ("I", "CONST", "R"), ("CONST", "I"), ("IT", "CONST"))):
+        out.append(dict(id="seq-%s-backward_euler-fd-jacobian" % "-".join(sq), ops=list(sq), family="backward_euler", N=1, fd=True, budget=dict(b, wall_s=80)))
     out.append(dict(id="split-euler", ops=["SPLIT"], family="euler", N=3, budget=b))
     out.append(dict(id="split-sympl_euler", ops=["SPLIT"], family="sympl_euler", N=3, budget=b))
     out.append(dict(id="split-rk4", ops=["SPLIT"], family="rk4", N=2, budget=b))
@@ -88,7 +92,7 @@ def scenario(c, inst):
         # contract stub), so that anything an integrator object carries over a reset() shows up as a different trajectory
         import desolver.utilities.optimizer as opt
         from .common import verdict_root_stub
-        with patched(opt, "nonlinear_roots", verdict_root_stub(c, congruent=True)):
+        with patched(opt, "nonlinear_roots", verdict_root_stub(c, congruent=("with_jacobian" if inst.get("fd") else True))):
             return _scenario(c, inst)
     return _scenario(c, inst)
 
@@ -108,10 +112,27 @@ def _scenario(c, inst):
     y0_copy = list(flat(c, y0))
     consts = dict(k=c.real("kconst"))
     consts_copy = dict(consts)
+    settings_consts = [consts]
     dense = inst.get("dense", True)
     evcall = inst.get("evcall", 1)
 
+    fd_coef = (c.real("fd_a"), c.real("fd_b")) if inst.get("fd") else None
+
     def mk_rhs():
+        if fd_coef is not None:
+            # affine in y, the parameter k is a factor of the slope; NO jac attribute: DiffRHS differentiates it by finite differences
+            class Aff:
+                def __init__(self):
+                    self.calls = []
+                    self.fault_at = None
+
+            base_ = Aff()
+
+            def rhs_fd(t, y, k=None):
+                base_.calls.append((t, y))
+                return k * fd_coef[0] * y + fd_coef[1]
+            rhs_fd.base = base_
+            return rhs_fd
         base = FreshRhs(c, shape, name="f", mode="uf")
 
         def rhs(t, y, k=None):
@@ -124,7 +145,7 @@ def _scenario(c, inst):
         return rhs
 
     def construct(rhs, rtol=None, atol=None):
-        a = de.OdeSystem(rhs, y0=y0, t=(t0, tf), dt=dt0, dense_output=dense, rtol=rtol, atol=atol, constants=consts)
+        a = de.OdeSystem(rhs, y0=y0, t=(t0, tf), dt=dt0, dense_output=dense, rtol=rtol, atol=atol, constants=settings_consts[0])
         a.method = method
         return a
 
@@ -230,6 +251,14 @@ def _scenario(c, inst):
             rhs.base.fault_at = len(rhs.base.calls) + 1
             r = run(a.integrate, callback=[spans.cap_callback(c, cap, kind)])
             rhs.base.fault_at = None
+        elif op == "CONST":
+            newc = dict(k=c.real("knew%d" % i))
+            c.assume(newc["k"] != settings_consts[0]["k"])
+
+            def setc():
+                a.constants = newc
+            r = run(setc)
+            settings_consts[0] = newc
         elif op == "R":
             r = run(a.reset)
         else:
@@ -274,7 +303,7 @@ def _scenario(c, inst):
     rhs2 = mk_rhs()
 
     def fresh():
-        b = de.OdeSystem(rhs2, y0=y0, t=(t0, tf), dt=dt0, dense_output=dense, rtol=settings["rtol"], atol=settings["atol"], constants=consts)
+        b = de.OdeSystem(rhs2, y0=y0, t=(t0, tf), dt=dt0, dense_output=dense, rtol=settings["rtol"], atol=settings["atol"], constants=settings_consts[0])
         b.method = settings["method"]
         if settings["kv"] is not None:
             b.set_kick_vars(settings["kv"])
